@@ -56,19 +56,23 @@ func ParseConfig(s string) (Config, error) {
 
 // Program is the type-checked module under one configuration.
 type Program struct {
-	Cfg      Config
-	RepoDir  string
-	Fset     *token.FileSet
-	Pkgs     []*packages.Package          // module packages only
-	All      []*packages.Package          // roots as returned by Load (with deps reachable via Imports)
-	ByPath   map[string]*packages.Package // module packages by import path
-	Overlay  map[string][]byte
-	parents  map[*ast.File]map[ast.Node]ast.Node
-	declOf   map[*types.Func]*ast.FuncDecl
-	fileOf   map[*ast.FuncDecl]*ast.File
-	pkgOfObj map[*types.Package]*packages.Package
-	ssaOnce  bool
-	SSA      *SSAInfo
+	Cfg          Config
+	RepoDir      string
+	Fset         *token.FileSet
+	Pkgs         []*packages.Package          // module packages only
+	All          []*packages.Package          // roots as returned by Load (with deps reachable via Imports)
+	ByPath       map[string]*packages.Package // module packages by import path
+	Overlay      map[string][]byte
+	parents      map[*ast.File]map[ast.Node]ast.Node
+	declOf       map[*types.Func]*ast.FuncDecl
+	fileOf       map[*ast.FuncDecl]*ast.File
+	pkgOfObj     map[*types.Package]*packages.Package
+	normDecl     map[*ast.FuncDecl]*ast.FuncDecl // declaration → declaration with absorbed helpers (inline.go)
+	absorbedFn   map[*types.Func]bool
+	InlineStats  [2]int // absorbed calls (statement level, expression level)
+	InlineErrors []string
+	ssaOnce      bool
+	SSA          *SSAInfo
 }
 
 // Load type-checks every non-test package of /repo for cfg.
@@ -137,6 +141,7 @@ func Load(repo string, cfg Config, overlay map[string][]byte) (*Program, error) 
 			}
 		}
 	}
+	p.normalise()
 	return p, nil
 }
 
@@ -157,7 +162,16 @@ func (p *Program) InModule(obj types.Object) bool {
 }
 
 // Decl returns the syntax of a module function.
-func (p *Program) Decl(fn *types.Func) *ast.FuncDecl { return p.declOf[fn] }
+func (p *Program) Decl(fn *types.Func) *ast.FuncDecl {
+	d := p.declOf[fn]
+	if nd := p.normDecl[d]; nd != nil {
+		return nd
+	}
+	return d
+}
+
+// RawDecl returns the syntax as written (helpers not absorbed).
+func (p *Program) RawDecl(fn *types.Func) *ast.FuncDecl { return p.declOf[fn] }
 
 // Func looks up a package-level function ("Name") or method ("T.Name", pointer or value receiver).
 func (p *Program) Func(rel, name string) *types.Func {
@@ -259,6 +273,12 @@ func (p *Program) FuncsOf(pk *packages.Package) []*ast.FuncDecl {
 	for _, f := range pk.Syntax {
 		for _, d := range f.Decls {
 			if fd, ok := d.(*ast.FuncDecl); ok && fd.Body != nil {
+				if fn, ok := pk.TypesInfo.Defs[fd.Name].(*types.Func); ok && p.absorbedFn[fn] {
+					continue // an extracted helper: analysed as part of its callers
+				}
+				if nd := p.normDecl[fd]; nd != nil {
+					fd = nd
+				}
 				out = append(out, fd)
 			}
 		}
